@@ -35,10 +35,15 @@ OutSum(adj, a, F(_)) == SumSeq([k \in 1..Len(adj[a]) |-> IF adj[a][k].kind = "ho
 SigmaCount(adj, a) == OutSum(adj, a, SigmaOrder) + SigmaOrder(InChain(adj, a).order)
 BondSumE(adj, a)   == OutSum(adj, a, LAMBDA o : o) + InChain(adj, a).order     \* after kekulisation
 
-AroEdges(adj) ==
+(* aromatic ("one and a half") bonds as pairs <<lo, hi>>; AroEdgesDef is the   *)
+(* definition over all pairs, AroEdges the same set collected slot by slot     *)
+AroEdgesDef(adj) ==
   {ed \in (1..Len(adj)) \X (1..Len(adj)) :
      ed[1] < ed[2] /\ \/ \E k \in 1..Len(adj[ed[1]]) : adj[ed[1]][k].kind # "hole" /\ adj[ed[1]][k].to = ed[2] /\ adj[ed[1]][k].order = 15
                       \/ \E k \in 1..Len(adj[ed[2]]) : adj[ed[2]][k].kind # "hole" /\ adj[ed[2]][k].to = ed[1] /\ adj[ed[2]][k].order = 15}
+AroEdges(adj) ==
+  UNION {{<<Min(i, adj[i][k].to), Max(i, adj[i][k].to)>> :
+            k \in {x \in 1..Len(adj[i]) : adj[i][x].kind # "hole" /\ adj[i][x].order = 15}} : i \in 1..Len(adj)}
 InDS(E, a) == \E ed \in E : a \in {ed[1], ed[2]}
 
 (* "needs": exactly one pi bond required; "sat": none; "unspec": the         *)
